@@ -175,4 +175,17 @@ CHECKS = {
            "corpus)."),
   "design_ref": "DESIGN.md §5 C09", "note": _NOTE,
   "technique": "static analysis: reader ASTs evaluated over reference documents of four formats (all syntactic-freedom combinations); model comparison with truth-table equivalence; must-raise checks for unsupported constructs"},
+ "C02": {
+  "text": ("Each of the six readers' transform() is evaluated from source on documents of two origins (written by this "
+           "library's writers, themselves evaluated from source, from abstract models realising every relation kind and "
+           "operator; and written by independent reference emitters) and the abstract model it builds is inspected object "
+           "by object: one parentless root; relations point back to their owner and are non-empty; each child's parent is "
+           "the owner of the one relation it is in; integer cardinalities; attributes point back; constraints are Node trees "
+           "with unary operand in .left and both binary operands, terminals converted (no parse-tree object in the model); "
+           "Constraint.get_features returns exactly the names written (logical constraints). All 24 Relation(...) "
+           "construction sites of the readers are exercised (coverage measured against the sites found syntactically); "
+           "add_relation/add_attribute back-pointers decided on abstract objects. Not decided: non-emptiness of "
+           "relations for arbitrary accepted documents."),
+  "design_ref": "DESIGN.md §5 C02", "note": _NOTE,
+  "technique": "static analysis: reader ASTs evaluated to abstract object graphs that are inspected for ownership/shape invariants; construction-site coverage measured against the syntax tree"},
 }
